@@ -98,7 +98,12 @@ FnOf(e) == FnRec(ParamsOf(e), e)
 XApply(fn, vals) ==
     LET v == Eval(fn.e, ArgEnv(fn.params, vals), FT) IN IF IsBoolV(v) THEN Skip ELSE v
 
-M == INSTANCE MxlModel WITH Apply <- XApply, VAdd <- RAdd, VMul <- RMul, VZero <- Zero
+\* MxlModel sums the flux terms of a variable by folding over the SET of flux names.  RAdd is strict, left operand
+\* first, so which non-number a sum with two bad terms yields would depend on the traversal order, i.e. on the names.
+\* CAdd is commutative on the non-numbers: an undefined term makes the sum undefined whatever else is declined.
+CAdd(a, b) == IF a = Undef \/ b = Undef THEN Undef ELSE IF Bad(a) THEN a ELSE IF Bad(b) THEN b ELSE RAdd(a, b)
+
+M == INSTANCE MxlModel WITH Apply <- XApply, VAdd <- CAdd, VMul <- RMul, VZero <- Zero
 
 \* ---- skeleton --------------------------------------------------------------------------------
 Kinds == {"der", "rxn", "iap", "iav"}
@@ -402,12 +407,19 @@ PredicatesClosed ==
                /\ MustExport(f.e) => \A s \in SubExprs(f.e) : MustExport(s)
                /\ MustExport(f.e) => Exportable(f.e)
 
-\* the meaning of a model does not depend on the naming scheme
+\* The meaning of a model does not depend on the naming scheme: tables of single values are identical (non-numbers
+\* included); a derivative - a sum accumulated in the traversal order of a set of names - is undefined under one
+\* naming iff under the other, and wherever both give a number it is the same number (the magnitude guard of Rat may
+\* decline under one order of summation only).
+SameValue(a, b) == /\ (a = Undef) <=> (b = Undef)
+                   /\ (RatV(a) /\ RatV(b)) => a = b
 RenameInvariant ==
     WF => \A j \in DOMAIN Points :
              LET p == Points[j]
                  r == RenContent(c)
-             IN /\ M!Rhs(r, RenTab(p.y), p.t) = M!Rhs(c, p.y, p.t)
+                 rr == M!Rhs(r, RenTab(p.y), p.t)
+                 rc == M!Rhs(c, p.y, p.t)
+             IN /\ DOMAIN rr = DOMAIN rc /\ \A m \in DOMAIN rc : SameValue(rr[m], rc[m])
                 /\ M!ArgsAt(r, RenTab(p.y), p.t) = RenTab(M!ArgsAt(c, p.y, p.t))
                 /\ M!InitialValues(r) = RenTab(M!InitialValues(c))
 
